@@ -15,6 +15,8 @@
 package pbft
 
 import (
+	"bytes"
+	"os"
 	"time"
 
 	"github.com/dappledger/AnnChain/gemmill/go-wire"
@@ -55,6 +57,9 @@ type WAL struct {
 }
 
 func NewWAL(walDir string, light bool) (*WAL, error) {
+	if err := dropTornTail(walDir + "/wal"); err != nil {
+		return nil, err
+	}
 	group, err := auto.OpenGroup(walDir + "/wal")
 	if err != nil {
 		return nil, err
@@ -66,6 +71,42 @@ func NewWAL(walDir string, light bool) (*WAL, error) {
 	wal.BaseService = *gcmn.NewBaseService("WAL", wal)
 	_, err = wal.Start()
 	return wal, err
+}
+
+// A crash may leave a torn (partially written) last line without the final newline.
+// Drop it, otherwise the records appended from now on merge with it into one
+// undecodable line and the next replay stops there.
+func dropTornTail(headPath string) error {
+	f, err := os.OpenFile(headPath, os.O_RDWR, 0600)
+	if os.IsNotExist(err) {
+		return nil
+	} else if err != nil {
+		return err
+	}
+	defer f.Close()
+	info, err := f.Stat()
+	if err != nil {
+		return err
+	}
+	end := info.Size()
+	buf := make([]byte, 4096)
+	for pos := end; pos > 0; {
+		n := int64(len(buf))
+		if n > pos {
+			n = pos
+		}
+		if _, err := f.ReadAt(buf[:n], pos-n); err != nil {
+			return err
+		}
+		if pos == end && buf[n-1] == '\n' {
+			return nil // complete last line
+		}
+		if i := bytes.LastIndexByte(buf[:n], '\n'); i >= 0 {
+			return f.Truncate(pos - n + int64(i) + 1)
+		}
+		pos -= n
+	}
+	return f.Truncate(0)
 }
 
 func (wal *WAL) OnStart() error {
